@@ -488,8 +488,36 @@ def t_inline_copy(facts, res, tier):
                     res.fail(key, facts.where(fn), "the cloned instruction's `%s` is overwritten in append_code" % f)
         if not patched:
             res.fail("T-INLINE-COPY:ANCHOR-MISSING", facts.where(fn), "append_code neither builds an AsmInstruction literal nor clones and patches one")
+    # a literal bound to a local may be patched afterwards: the value a field ends up with is the last
+    # unconditional assignment; an assignment under a condition gives the field two values
+    later = {}
+    for b in walk(fn["body"]):
+        if b.get("k") != "block":
+            continue
+        st = b.get("stmts", [])
+        for i, s0 in enumerate(st):
+            if s0.get("k") == "let" and isinstance(s0.get("init"), dict) and s0["init"].get("k") == "struct" and s0["init"]["segs"][-1] == "AsmInstruction" and s0.get("pat", {}).get("k") == "ident":
+                var = s0["pat"]["name"]
+                unc, cond = {}, {}
+                for s1 in st[i + 1:]:
+                    if s1.get("k") == "assign" and s1["l"].get("k") == "field" and expr_text(s1["l"]["base"]) == var:
+                        unc[s1["l"]["name"]] = expr_text(s1["r"])
+                        cond.pop(s1["l"]["name"], None)
+                    else:
+                        for x in walk(s1):
+                            if x.get("k") == "assign" and x["l"].get("k") == "field" and expr_text(x["l"]["base"]) == var:
+                                cond.setdefault(x["l"]["name"], []).append(expr_text(x["r"]))
+                later[id(s0["init"])] = (unc, cond)
     for lit in lits:
         got = {f["name"]: expr_text(f["e"]) for f in lit["fields"]}
+        unc, cond = later.get(id(lit), ({}, {}))
+        got.update(unc)
+        for f0, vals in cond.items():
+            if f0 != "dasm_operand":
+                m0 = re.match(r"^(\w+)\.%s(\.clone\(\))?$" % f0, got.get(f0, ""))
+                bad = [v for v in vals if not re.match(r"^(\w+)\.%s(\.clone\(\))?$" % f0, v)]
+                if not m0 or bad:
+                    got[f0] = "%s on some paths, %s on others" % (got.get(f0), " / ".join(vals))
         src = None
         for f in fields:
             if f == "dasm_operand":
@@ -517,6 +545,31 @@ def t_inline_copy(facts, res, tier):
       text="append_code suffixes label definitions and the operands of exactly the mnemonics that take a local label (the six conditional branches and JMP, not JSR) with the same per-expansion suffix, and the label push_code defines after the body is what `.endof` becomes under that renaming; the expansion counter is incremented before each expansion")
 def t_inline_labels(facts, res, tier):
     fn = facts.fn("append_code", "AssemblyCode")
+    from astlib import inline_local_closures
+    fn = dict(fn, body=inline_local_closures(fn["body"]))
+    # the new name is the template applied to the old one, whatever the old name looks like
+    key = "T-INLINE-LABELS:unconditional"
+    nsites = 0
+    for n in walk(fn["body"]):
+        srcs = []
+        if n.get("k") == "call" and expr_text(n["func"]) == "AsmLine::Label" and n.get("args"):
+            srcs.append(n["args"][0])
+        if n.get("k") == "struct" and n["segs"][-1] == "AsmInstruction":
+            for f in n.get("fields", []):
+                if f.get("name") == "dasm_operand" and isinstance(f.get("e"), dict) and "format" in expr_text(f["e"]):
+                    srcs.append(f["e"])
+        if n.get("k") == "assign" and expr_text(n["l"]).endswith(".dasm_operand"):
+            srcs.append(n["r"])
+        for e in srcs:
+            nsites += 1
+            x = e
+            while isinstance(x, dict) and x.get("k") in ("ref", "block") :
+                x = x["e"] if x.get("k") == "ref" else (x["stmts"][-1] if x.get("stmts") else x)
+                if x is e:
+                    break
+            res.inst(key + "#%d" % nsites, True, {"new_name": expr_text(e)[:80]})
+            if isinstance(x, dict) and x.get("k") in ("if", "match"):
+                res.fail(key, facts.where(fn, n), "append_code chooses the new name of a label by looking at the old one (`%s`): names that keep their spelling are shared by every expansion of the same body, so a nested inline function expanded twice defines its labels twice" % expr_text(e)[:100])
     # label arm
     fmts = [(n, n["args"][0]["v"]) for n in walk(fn["body"]) if n.get("k") == "macro" and n["name"] == "format" and n.get("args") and n["args"][0].get("k") == "lit"]
     tmpls = {t for _, t in fmts}
@@ -543,6 +596,19 @@ def t_inline_labels(facts, res, tier):
                         names = {x for x in re.findall(r"\b([A-Z]{3})\b", expr_text(g)) if x in MN}
                         if names:
                             renamed = names
+    if renamed is None:
+        # `if let A | B | .. = inst.mnemonic { .. format!(..) .. }` / `if matches!(inst.mnemonic, A | B | ..) { .. }`
+        for m in walk(fn["body"]):
+            if m.get("k") == "if" and "format" in expr_text(m["then"]) and "mnemonic" in expr_text(m["cond"]):
+                c = m["cond"]
+                names = set()
+                if c.get("k") == "letcond":
+                    pats = c["pat"]["alts"] if c["pat"].get("k") == "or" else [c["pat"]]
+                    names = {p["segs"][-1] for p in pats if p.get("k") == "path"}
+                else:
+                    names = {x for x in re.findall(r"\b([A-Z]{3})\b", expr_text(c)) if x in MN}
+                if names:
+                    renamed = names
     want = set(BRANCHES) | {"JMP"}
     res.inst("T-INLINE-LABELS:renamed-mnemonics", True, {"renamed": sorted(renamed or [])})
     if renamed is None:
